@@ -278,11 +278,19 @@ pub fn all_kinds() -> Vec<(String, Vec<u8>)> {
 /// (1000 Hz under the 500 ms-per-packet clock of `check_trace` when sent two steps apart); appended after all other kinds
 pub fn uptime_kinds() -> Vec<(String, Vec<u8>)> {
     let mut v = vec![];
+    // (the IPv6 family runs between IPv4-MAPPED addresses ::ffff:10.0.0.x: an address is reported as it is on the wire)
     for v6 in [false, true] {
         let fam = if v6 { "up6" } else { "up4" };
         let mk = |from_client: bool, flags: u8, ts: u32| {
             let (src, sport, dst, dport) = if from_client { (1, 40100, 2, 80) } else { (2, 80, 1, 40100) };
-            pkt::build(&Spec { v6, src, sport, dst, dport, flags, seq: 1000, ack: if flags & ACK != 0 { 1 } else { 0 }, opts: [vec![1, 1], ts_opts(ts, 0)[2..].to_vec()].concat(), payload: if flags & SYN == 0 { vec![b'x'] } else { vec![] }, ..Spec::default() })
+            let mut f = pkt::build(&Spec { v6, src, sport, dst, dport, flags, seq: 1000, ack: if flags & ACK != 0 { 1 } else { 0 }, opts: [vec![1, 1], ts_opts(ts, 0)[2..].to_vec()].concat(), payload: if flags & SYN == 0 { vec![b'x'] } else { vec![] }, ..Spec::default() });
+            if v6 {
+                for o in [8usize, 24] {
+                    let id = f[o + 15];
+                    f[o..o + 16].copy_from_slice(&[0, 0, 0, 0, 0, 0, 0, 0, 0, 0, 0xff, 0xff, 10, 0, 0, id]);
+                }
+            }
+            f
         };
         v.push((format!("{fam}-syn"), mk(true, SYN, 123_456_789)));
         v.push((format!("{fam}-synack"), mk(false, SYN | ACK, 5_000_000)));
